@@ -39,6 +39,27 @@ class MySet(set):
     pass
 
 
+EQ_BASE = 1_000_000
+
+
+class EqOpaque(Opaque):
+    """Arbitrary objects that are DISTINCT (`is`) but compare and hash EQUAL within a group of 8 idents:
+    what `==`-keyed bookkeeping confuses and `id`-keyed bookkeeping keeps apart. Wire: {"o": ident >= EQ_BASE}."""
+
+    def __init__(self, ident):
+        super().__init__(ident)
+        self.group = ident // 8
+
+    def __eq__(self, other):
+        return isinstance(other, EqOpaque) and other.group == self.group
+
+    def __ne__(self, other):
+        return not self.__eq__(other)
+
+    def __hash__(self):
+        return hash(('EqOpaque', self.group))
+
+
 def _classes():
     from ruamel.yaml.comments import CommentedMap, CommentedSeq
     return {
@@ -96,7 +117,10 @@ def build_objects(cells):
     for c in cells:
         if 'leaf' in c:
             w = c['leaf']
-            o = common.dec(w)
+            if isinstance(w, dict) and 'o' in w and w['o'] >= EQ_BASE:
+                o = EqOpaque(w['o'])
+            else:
+                o = common.dec(w)
         elif 'str' in c:
             o = fresh_str(c['str'])
         elif 'list' in c:
@@ -304,6 +328,20 @@ def model_graph(cells, root, n0):
     return walk(root, False)
 
 
+def erase_member_classes(g, in_set=False):
+    """the canonical graph with the class tag of tuples that are set members erased: of two ==-equal members
+    (`()` and `MyTuple()`) the one that survives depends on CPython's per-process set iteration order"""
+    if isinstance(g, list):
+        return [erase_member_classes(x, in_set) for x in g]
+    if isinstance(g, dict):
+        inner = in_set or g.get('kind') == 'set'
+        out = {k: erase_member_classes(v, inner) for k, v in g.items()}
+        if in_set and g.get('kind') == 'tuple':
+            out['tag'] = None
+        return out
+    return g
+
+
 def cells_to_wire(cells, r):
     """Tree reading of the heap at `r` as a wire value (what FmtHeap.readVal computes)."""
     c = cells[r]
@@ -465,8 +503,12 @@ class Snapshot:
             self.copy = None
         self.repr = stable_repr(o)
         self.skel = skel(o)
+        self.ids = node_ids(o)
 
-    def same(self, o):
+    def same(self, o, ids=False):
+        """`ids=True`: `o` is the snapshotted object itself, later — also its parts must be the same objects"""
+        if ids and node_ids(o) != self.ids:
+            return 'object identities differ (an object in it was replaced by another one)'
         if self.copy is not None:
             if not deep_equal(o, self.copy):
                 return 'value differs from its deep copy'
@@ -481,6 +523,14 @@ class Snapshot:
 
 
 STD_EQ = (dict, list, tuple)
+
+
+def node_ids(o):
+    """id() of every identity-bearing object below the root, in traversal order (the root itself is excluded:
+    callers may hand in a fresh `dict(context)` each time)."""
+    it = iter_nodes(o)
+    next(it)
+    return [id(x) for x in it if identity_bearing(x)]
 
 
 def iter_nodes(o, depth=0):
@@ -514,12 +564,36 @@ def py_brace_free(o, seen=None):
     return True
 
 
-def shape_monitor(inp, res, path='$'):
-    """Same container types and shape, non-string leaves identical. Returns a failure text or None."""
+def shape_monitor(inp, res, path='$', fmt=None):
+    """The property's second sentence, judged position by position on the implementation's result alone:
+      * a non-string leaf of the input IS (`is`) the object at the same position of the result, same type;
+      * a container comes back as the same class with the same shape, its members formatted element-wise: the
+        string / special tag at a position of the input became what formatting THAT element on its own gives
+        (`fmt`, the same context), sub-containers are judged recursively at their own position — so two
+        equal-but-distinct hashable siblings are each held to their own members;
+      * set members have no position: every non-string leaf member must be in the result as the identical
+        object, every container member must have a counterpart that passes this monitor, every string member's
+        own formatting must be in the result.
+    Returns a failure text or None."""
     if isinstance(inp, str) or is_special(inp):
-        return None                                   # formattable: any result
+        if fmt is None or path == '$':
+            return None                               # the top-level formattable: any result
+        try:
+            alone = fmt(inp)
+        except RecursionError:
+            raise
+        except Exception as e:
+            return (f'{path}: formatting the element {inp!r} on its own raises {type(e).__name__} although formatting '
+                    f'the container gave {res!r} at its position')
+        if not deep_equal(alone, res):
+            return (f'{path}: element {inp!r} formats to {alone!r} on its own but the container\'s result holds '
+                    f'{res!r} at its position (not formatted element-wise)')
+        return None
     if isinstance(inp, (bytes, bytearray)) or is_leaf(inp):
-        return None if res is inp else f'{path}: non-string leaf {inp!r} came back as a different object {res!r}'
+        if res is inp:
+            return None
+        return (f'{path}: non-string leaf {inp!r} ({type(inp).__name__}) came back as a different object '
+                f'{res!r} ({type(res).__name__})')
     if type(res) is not type(inp):
         return f'{path}: container type {type(inp).__name__} became {type(res).__name__}'
     if isinstance(inp, Mapping):
@@ -527,21 +601,37 @@ def shape_monitor(inp, res, path='$'):
             return f'{path}: mapping grew'
         if len(res) == len(inp):
             for i, ((k, v), (k2, v2)) in enumerate(zip(inp.items(), res.items())):
-                f = shape_monitor(k, k2, f'{path}.key{i}') or shape_monitor(v, v2, f'{path}[{k!r}]')
+                f = shape_monitor(k, k2, f'{path}.key{i}', fmt) or shape_monitor(v, v2, f'{path}[{k!r}]', fmt)
                 if f:
                     return f
         return None
     if isinstance(inp, Set):
         if len(res) > len(inp):
             return f'{path}: set grew'
-        for x in (inp if len(res) == len(inp) else ()):
-            if not isinstance(x, str) and is_leaf(x) and not any(x is y for y in res):
-                return f'{path}: set member {x!r} is not in the result as the identical object'
+        if len(res) != len(inp):
+            return None                               # members collided after formatting: no counterpart claim
+        for x in inp:
+            if isinstance(x, str) or is_special(x):
+                if fmt is None:
+                    continue
+                try:
+                    alone = fmt(x)
+                except RecursionError:
+                    raise
+                except Exception:
+                    continue
+                if not any(deep_equal(alone, y) for y in res):
+                    return f'{path}: set member {x!r} formats to {alone!r} on its own, which is not in the result {res!r}'
+            elif is_leaf(x):
+                if not any(x is y for y in res):
+                    return f'{path}: set member {x!r} is not in the result as the identical object'
+            elif not any(type(y) is type(x) and shape_monitor(x, y, f'{path}{{}}', fmt) is None for y in res):
+                return f'{path}: set member {x!r} has no element-wise formatted counterpart in the result {res!r}'
         return None
     if len(res) != len(inp):
         return f'{path}: sequence length {len(inp)} became {len(res)}'
     for i, (x, y) in enumerate(zip(inp, res)):
-        f = shape_monitor(x, y, f'{path}[{i}]')
+        f = shape_monitor(x, y, f'{path}[{i}]', fmt)
         if f:
             return f
     return None
@@ -608,19 +698,23 @@ def run_impl(value, ctxdict, id2old):
         raise
     except Exception as e:  # the formatter's own error
         res, err = None, e
-    f = snap_v.same(value)
+    f = snap_v.same(value, ids=True)
     if f:
         fails.append(('input-mutated', f'the formatted value changed: {f}'))
-    f = snap_c.same(dict(ctx))
+    f = snap_c.same(dict(ctx), ids=True)
     if f:
-        fails.append(('context-mutated', f'the context changed: {f}'))
+        fails.append(('context-mutated', f'the context changed: {f}; keys {list(snap_c.copy) if snap_c.copy is not None else "?"} '
+                      f'-> {list(ctx)}'))
     if err is not None:
         if bf:
             fails.append(('bracefree-raises', f'formatting a brace-free value raised {type(err).__name__}: {err}'))
         return {'err': exc_name(err), 'msg': str(err)[:200]}, fails
-    f = shape_monitor(value, res)
+    f = shape_monitor(value, res, fmt=ctx.get_formatted_value)
     if f:
         fails.append(('shape', f))
+    f = snap_v.same(value, ids=True) or snap_c.same(dict(ctx), ids=True)
+    if f and not any(m in ('input-mutated', 'context-mutated') for m, _ in fails):
+        fails.append(('element-formatting-mutates', f'formatting single elements of the value changed input or context: {f}'))
     if bf:
         f = snap_v.same(res)
         if f:
@@ -865,6 +959,53 @@ def directed_cases():
     case('jsonify-unserialisable', lambda b: (std_ctx(b), b.jsonify(b.set([b.leaf(1)]))))
     case('py-missing', lambda b: (std_ctx(b), b.py('nosuch')))
 
+    # equal-but-distinct hashable siblings (1 == 1.0 == True, EqOpaque objects): each is formatted on its own;
+    # the SAME object twice: the id-keyed memo answers the second occurrence with the first result
+    def twins_numbers(b):
+        ctx = std_ctx(b)
+        big, bigf = 2 ** 70, float(2 ** 70)
+        return ctx, b.list([
+            b.tuple([b.leaf(1), b.str('v{a}')]), b.tuple([b.leaf(1.0), b.str('v{a}')]),
+            b.tuple([b.leaf(True), b.str('v{a}')]),
+            b.dict([[b.str('k'), b.tuple([b.leaf(big), b.str('{a}')])], [b.str('j'), b.tuple([b.leaf(bigf), b.str('{a}')])]]),
+            b.set([b.tuple([b.leaf(2), b.str('{a}')])], 1), b.set([b.tuple([b.leaf(2.0), b.str('{a}')])], 1)])
+    case('twins-numbers', twins_numbers)
+
+    def twins_order(b):
+        ctx = std_ctx(b)
+        return ctx, b.tuple([b.tuple([b.leaf(False), b.str('{i}')]), b.tuple([b.leaf(0.0), b.str('{i}')]),
+                             b.tuple([b.leaf(0), b.str('{i}')]), b.tuple([b.leaf(0), b.str('{i}')])])
+    case('twins-zero', twins_order)
+
+    def twins_objects(b):
+        ctx = std_ctx(b)
+        e1, e2, e3 = b.leaf(EqOpaque(EQ_BASE)), b.leaf(EqOpaque(EQ_BASE + 1)), b.leaf(EqOpaque(EQ_BASE + 2))
+        t1 = b.tuple([e1, b.str('{a}')])
+        return ctx, b.list([t1, b.tuple([e2, b.str('{a}')]), t1, b.tuple([b.tuple([e3]), b.str('{a}')]),
+                            b.tuple([b.tuple([e1]), b.str('{a}')]), b.set([b.tuple([e2, b.str('x{a}')])], 1),
+                            b.set([b.tuple([e3, b.str('x{a}')])], 1)])
+    case('twins-eq-objects', twins_objects)
+
+    def twins_shared(b):
+        ctx = std_ctx(b)
+        x = b.tuple([b.leaf(1), b.str('{a}')])
+        y = b.tuple([b.leaf(1.0), b.str('{a}')])
+        return ctx, b.dict([[b.str('p'), x], [b.str('q'), y], [b.str('r'), x], [b.str('s'), b.list([y, x, y])]])
+    case('twins-shared', twins_shared)
+
+    def twins_bracefree(b):
+        ctx = std_ctx(b)
+        return ctx, b.list([b.tuple([b.leaf(1), b.str('lit')]), b.tuple([b.leaf(1.0), b.str('lit')]),
+                            b.tuple([b.leaf(True), b.str('lit')]), b.tuple([b.leaf(1)]), b.tuple([b.leaf(True)]),
+                            b.set([b.leaf(1.0)], 1), b.set([b.leaf(1)], 1)])
+    case('twins-bracefree', twins_bracefree)
+
+    def twins_strings(b):
+        ctx = std_ctx(b)
+        return ctx, b.list([b.tuple([b.str('{a}'), b.leaf(1)]), b.tuple([b.str('{a}'), b.leaf(True)]),
+                            b.tuple([b.str('{i}'), b.str('{a}')]), b.tuple([b.str('{i}'), b.str('{a}')])])
+    case('twins-strings', twins_strings)
+
     def deep(b):
         ctx = std_ctx(b)
         r = b.str('{a}')
@@ -922,11 +1063,58 @@ def random_case(rng, size):
                     + rng.choice([' post', '', '{' + f'k{j}' + '}'])), True
         return '{' + f'k{i}' + '}{' + f'k{j}' + '}', True
 
+    ntwins = [0]
+
+    def twins(maxkey, pool):
+        """2-3 hashable containers that compare equal but differ in the identity / type of a non-string leaf
+        (1 / 1.0 / True, 0 / 0.0 / False, 2 / 2.0, distinct EqOpaque objects of one group, or the very same
+        number), sometimes one of them twice (the same object: the memo legitimately answers), inside a list,
+        tuple or as dict values."""
+        fam = rng.choice(['one', 'one', 'zero', 'two', 'eqobj', 'eqobj', 'same'])
+        if fam == 'eqobj':
+            base = EQ_BASE + 8 * (len(b.cells) + rng.randrange(1000))
+            leaves = [EqOpaque(base + i) for i in range(3)]
+        else:
+            leaves = {'one': [1, 1.0, True], 'zero': [0, 0.0, False], 'two': [2, 2.0, 2], 'same': [-7, -7, -7]}[fam]
+        rng.shuffle(leaves)
+        leaves = leaves[:rng.randint(2, 3)]
+        text, strable = expr(maxkey, False)
+        wrap = rng.choice(['tuple', 'tuple', 'fset', 'nested', 'plain', 'str-first'])
+        members = []
+        for lv in leaves:
+            x = b.leaf(lv)
+            if wrap == 'tuple':
+                m = b.tuple([x, b.str(text, strable)])
+            elif wrap == 'fset':
+                m = b.set([b.tuple([x, b.str(text, strable)])], 1)
+            elif wrap == 'nested':
+                m = b.tuple([b.tuple([x]), b.str(text, strable), b.set([x], 1)])
+            elif wrap == 'plain':
+                m = b.tuple([x, b.str(rng.choice(TEXTS))])
+            else:
+                m = b.tuple([b.str(text, strable), x])
+            members.append(m)
+        if rng.random() < 0.45:
+            members.append(rng.choice(members))
+        rng.shuffle(members)
+        q = rng.random()
+        if q < 0.45:
+            ref = b.list(members, rng.choice([0, 0, 2, 3]))
+        elif q < 0.7:
+            ref = b.tuple(members, rng.choice([0, 3]))
+        else:
+            ref = b.dict([[b.str(k), m] for k, m in zip(['p', 'q', 'r', 'key'], members)], rng.choice([0, 2, 3, 4]))
+        pool.extend(members[:2])
+        ntwins[0] += 1
+        return ref
+
     def gen_value(depth, maxkey, pool, top=False):
         """Returns a ref. `pool`: refs that may be shared."""
         r = rng.random()
         if pool and r < 0.12 and not top:
             return rng.choice(pool)
+        if depth > 0 and not top and rng.random() < 0.07:
+            return twins(maxkey, pool)
         if depth <= 0 or r < 0.30:
             q = rng.random()
             if q < 0.45:
@@ -992,7 +1180,10 @@ def random_case(rng, size):
         ctx.append([f'k{i}', r])
         key_strable.append(b.strable[r])
     root = gen_value(rng.randint(1, 4), nkeys, pool)
-    return {'stream': 'random', 'cells': b.cells, 'ctx': ctx, 'root': root}
+    case = {'stream': 'random', 'cells': b.cells, 'ctx': ctx, 'root': root}
+    if ntwins[0]:
+        case['twins'] = ntwins[0]          # groups of equal-but-distinct hashable siblings in this heap
+    return case
 
 
 def random_yaml_case(rng):
@@ -1077,3 +1268,142 @@ def f9_values():
         ('UserList', collections.UserList([1, 'two'])),
         ('UserDict', collections.UserDict({'a': 1})),
     ]
+
+
+# ---------------------------------------------------------------------------------------------
+# IMPLEMENTATION-ONLY stream: values holding arbitrary-Python `!py` strings
+# ---------------------------------------------------------------------------------------------
+#
+# case = {"stream": "implonly-py", "ctx": [[key, wire]…], "v": wire}, wire as common.enc plus {"pysrc": source}.
+# The formatter models have `!py` only over PypyrModel/PyEval.lean's sub-language (no assignment expressions inside
+# values, no comprehensions, no lambdas), so these cases have NO model side: only the monitors of `run_impl`
+# judge them (input and context deep-equal with the same keys, key order and object identities before/after;
+# shape; element-wise; non-string leaves identical). No source has a side effect of its own (no method calls
+# that mutate, no augmented assignment): what an expression binds with := is its own business and must not
+# reach the context.
+
+def dec_py(w):
+    from pypyr.dsl import Jsonify, PyString
+    if isinstance(w, list):
+        return [dec_py(x) for x in w]
+    if isinstance(w, dict):
+        if 'pysrc' in w:
+            return PyString(w['pysrc'])
+        if 't' in w:
+            return tuple(dec_py(x) for x in w['t'])
+        if 'd' in w:
+            return {dec_py(k): dec_py(v) for k, v in w['d']}
+        if 'set' in w:
+            return {dec_py(x) for x in w['set']}
+        if 'jsonify' in w:
+            return Jsonify(dec_py(w['jsonify']))
+    return common.dec(w)
+
+
+def has_pysrc(w):
+    if isinstance(w, list):
+        return any(has_pysrc(x) for x in w)
+    if isinstance(w, dict):
+        if 'pysrc' in w:
+            return True
+        return any(has_pysrc(x) for x in w.values())
+    return False
+
+
+PY_TARGETS = ['n', 'total', 'tmp', 'acc']
+
+PY_FORMS = [
+    # (source template, binds at top level?)      K: int-valued key, L: list-valued key, S: any key, t/u: targets
+    ('({t} := len({L})) * 2 + {t}', True), ('({K} := 5)', True), ('({K} := {K} + 1) * 2', True),
+    ('({t} := {L})', True), ('({LK} := {L})', True), ('[({t} := {K}), {t}][1]', True),
+    ('(({t} := 1), ({u} := {t} + 1))[1]', True), ('{K} if ({t} := {K}) else 0', True),
+    ('({t} := sum({L})) * 2', True), ('dict(a=({t} := 1), b={K})', True), ('({t} := {S})', True),
+    ('(({t} := {K}) and ({K} := 0)) or {K}', True), ('[i * ({t} := 2) for i in {L}] + [({u} := {K})]', True),
+    ('[({t} := i) for i in {L}]', False), ('[{t} for i in {L} if ({t} := i * 2) > 2] or 0', False),
+    ('any(({t} := i) > 1 for i in {L})', False), ('{{i: ({K} := i) for i in {L}}}', False),
+    ('(lambda: ({t} := 5))()', False), ('(lambda q: ({K} := q) + 1)({K})', False),
+    ('[(lambda: ({t} := i))() for i in {L}]', False),
+    ('{K}', False), ('{L}', False), ('{S}', False), ('len({L}) + {K}', False), ('[i + {K} for i in {L}]', False),
+    ('sorted({L})', False), ('list({L}) + [{K}]', False), ('(lambda: {K} + 1)()', False), ('{L}[:1]', False),
+    ('{K} == 1 or {L}', False), ('dict(zip({L}, {L}))', False), ('tuple({L})', False),
+]
+
+
+def random_py_case(rng):
+    nk = rng.randint(2, 5)
+    ctx, ints, lists = [], [], []
+    for i in range(nk):
+        k = f'k{i}'
+        q = rng.random()
+        if q < 0.4 or (i == 0):
+            v = rng.choice([0, 1, 3, -7, 2 ** 70, True])
+            ints.append(k)
+        elif q < 0.75 or (i == 1):
+            v = [rng.choice([1, 2, 3, 8, 12]) for _ in range(rng.randint(0, 4))]
+            if rng.random() < 0.3:
+                v.append([rng.choice([1, 2]), 'x{k0}'])       # a mutable member: must stay the same object
+                v = v[-1:] + v[:-1] if rng.random() < 0.5 else v
+            lists.append(k)
+        elif q < 0.9:
+            v = rng.choice(['plain', '', 'ref {k0}', '{k0}', 'a{{b}}'])
+        else:
+            v = {'d': [['p', rng.choice([1, 'x{k0}'])], ['q', [1, 2]]]}
+        ctx.append([k, v])
+    # int-only lists for arithmetic forms
+    arith_lists = [k for k, v in ctx if k in lists and all(isinstance(x, int) for x in v)] or None
+
+    def py():
+        form, _ = rng.choice(PY_FORMS)
+        L = rng.choice(arith_lists) if arith_lists else '[1, 2, 3]'
+        t, u = rng.sample(PY_TARGETS + [k for k, _ in ctx][:2], 2)
+        return {'pysrc': form.format(t=t, u=u, K=rng.choice(ints), L=L, LK=L if arith_lists else t, S=rng.choice(ctx)[0])}
+
+    def val(depth):
+        q = rng.random()
+        if depth <= 0 or q < 0.35:
+            q2 = rng.random()
+            if q2 < 0.6:
+                return py()
+            if q2 < 0.85:
+                k = rng.choice(ctx)[0]
+                return rng.choice(['{%s}', 'x{%s}', 'lit', '{%s:ff}', '{%s:rf}']).replace('%s', k)
+            return rng.choice([1, None, {'f': [5, 1]}, True, {'b': '00'}, {'o': rng.randrange(1000)}])
+        n = rng.randint(1, 3)
+        if q < 0.6:
+            return [val(depth - 1) for _ in range(n)]
+        if q < 0.75:
+            return {'t': [val(depth - 1) for _ in range(n)]}
+        if q < 0.95:
+            ks = rng.sample(['p', 'q', 'r', 'x{k0}', 'key'], n)
+            return {'d': [[k, val(depth - 1)] for k in ks]}
+        inner = val(depth - 1)
+        return {'jsonify': inner if not (isinstance(inner, dict) and 'pysrc' in inner) else [inner]}
+
+    v = py() if rng.random() < 0.3 else val(rng.randint(1, 3))
+    if not has_pysrc(v):
+        v = [v, py()]
+    return {'stream': 'implonly-py', 'ctx': ctx, 'v': v}
+
+
+PY_DIRECTED = [
+    {'ctx': [['items', [1, 2, 3]], ['total', 10], ['a', 'A']],
+     'v': {'d': [['doubled', {'pysrc': '(n := len(items)) * 2 + n'}], ['lit', 'x{a}']]}},
+    {'ctx': [['items', [1, 2, 3]], ['total', 10], ['a', 'A']],
+     'v': [{'pysrc': '(total := sum(items)) * 2'}, '{total}']},
+    {'ctx': [['items', [1, 2, 3]], ['expr', {'pysrc': '(m := max(items))'}]], 'v': '{expr}'},
+    {'ctx': [['items', [1, 2, 3]], ['expr', {'pysrc': '(items := items + [4])'}]], 'v': ['{expr}', 'x{expr}', '{items}']},
+    {'ctx': [['items', [[1], [2]]], ['k', 1]], 'v': {'pysrc': '(first := items[0])'}},
+    {'ctx': [['items', [1, 2, 3]], ['k', 1]],
+     'v': {'t': [{'pysrc': '[(y := i) for i in items]'}, {'pysrc': '(lambda: (z := 5))()'},
+                 {'pysrc': '[(k := i) for i in items]'}, {'pysrc': '(k := 7) + k'}, '{k}']}},
+    {'ctx': [['k', 1]], 'v': {'jsonify': [{'pysrc': '(k := 2)'}, {'pysrc': 'k'}]}},
+    {'ctx': [['k', 1], ['s', 'v{k}']], 'v': {'d': [['x{k}', {'pysrc': '(s := k)'}], ['y', '{s}']]}},
+]
+
+
+def run_py_case(case):
+    """-> (obs, monitor failures, observations about private state)"""
+    ctxdict = {k: dec_py(w) for k, w in case['ctx']}
+    value = dec_py(case['v'])
+    obs, fails = run_impl(value, ctxdict, {})
+    return obs, fails
